@@ -1102,6 +1102,14 @@ func (c *Ctx) rangeTableOf(fn *ssa.Function) *rangeTable {
 					case '1':
 						maxK = a.Subj
 					}
+				} else if j := strings.LastIndex(a.Subj, ")#"); j >= 0 && strings.Contains(a.Subj, "strings.Cut(") && j+2 < len(a.Subj) {
+					// the two ends as the results of strings.Cut
+					switch a.Subj[j+2] {
+					case '0':
+						minK = a.Subj
+					case '1':
+						maxK = a.Subj
+					}
 				}
 			}
 		}
@@ -1606,6 +1614,7 @@ func ruleSPLITSAFE(c *Ctx, r *Report) {
 			pos := c.instrPos(in)
 			shape := name
 			okSplit := false
+			isCut := false
 			switch name {
 			case "strings.Split":
 				okSplit = true
@@ -1614,6 +1623,12 @@ func ruleSPLITSAFE(c *Ctx, r *Report) {
 					okSplit = true
 				}
 				shape += fmt.Sprintf("(n=%s)", c.key(call.Call.Args[2], nil))
+			case "strings.Cut":
+				// a first-match split is exact when success additionally requires that the separator was found
+				// and does not occur again in the rest (then it is "exactly two parts" spelled differently)
+				isCut = true
+				okSplit = true
+				shape = "strings.Split" // the same split as far as the sibling comparison goes
 			}
 			sep, isC := "", false
 			if len(call.Call.Args) >= 2 {
@@ -1651,6 +1666,24 @@ func ruleSPLITSAFE(c *Ctx, r *Report) {
 				}
 				nres := len(p.Ret.Results)
 				if isNilConst(c.resolve(p.Ret.Results[nres-1], p.Env)) {
+					if isCut {
+						ck := c.key(call, p.Env)
+						found, noMore := false, false
+						for _, a := range p.Atoms {
+							if a.Kind == "bool" && a.Pos && a.Subj == ck+"#2" {
+								found = true
+							}
+							if a.Kind == "call" && !a.Pos && a.Subj == "strings.Contains" && a.Val == ck+"#1,"+fmt.Sprintf("%q", sep) {
+								noMore = true
+							}
+						}
+						if !found || !noMore {
+							checked = false
+							break
+						}
+						checked = true
+						continue
+					}
 					lo, hi := lenRange(p.Atoms, c.key(call, p.Env))
 					if lo != 2 || hi != 2 {
 						checked = false
@@ -1732,7 +1765,7 @@ func ruleRANGESEP(c *Ctx, r *Report) {
 					continue
 				}
 				name := calleeFullName(call)
-				if !strings.HasPrefix(name, "strings.Split") || len(call.Call.Args) < 2 {
+				if (!strings.HasPrefix(name, "strings.Split") && name != "strings.Cut") || len(call.Call.Args) < 2 {
 					continue
 				}
 				seen[call] = true
